@@ -13,6 +13,7 @@ func init() { register("C07", checkC07) }
 
 func checkC07(c *Ctx) {
 	r := c.R
+	r.Rule("R09.1", "(shared with C09) the members printed are this group's own: no field of the pooled encoder is read before the current record (or group) wrote it")
 	r.Rule("R10.2", "(shared with C10) the logger's registered context keys: each With-form (WithContextKeys included) applies its setting to the new child and leaves the receiver alone")
 	r.Rule("R07.6", "every registered key, every attribute: the loop of fromCtx over the registered context keys and the loop of serializeAttrs over the member list have their natural exit only (an absent key or a special-cased member must not end the traversal)")
 	r.Rule("R07.1", "source order: on every path of collectArgs the per-call slice receives context values, then the logger chain, then the call's own arguments (call order fromCtx < walkParentAttrs < argsToAttrs on the same slice)")
@@ -39,6 +40,8 @@ func checkC07(c *Ctx) {
 		c08Stores(c, p, m)
 		c07Sort(c, p, m)
 		pooledCtxFromConstructor(c, p, "R07.4")
+		attrCopiesWhole(c, p, "R07.4")
+		c09Pooled(c, p, m, "R09.1", feasibleModes)
 		nilContextSafe(c, p, m, "R02.9")
 		c10Frames(c, p, m)
 		contextKeysRegistered(c, p)
